@@ -85,6 +85,7 @@ struct Judge<'a> {
     downstream_spans: usize,
     continued_spans: usize,
     frame_current_hop_with_spans: bool,
+    unsampled_nonroot_spans: usize,
 }
 
 fn count_spans(items: &[PItem]) -> usize {
@@ -196,7 +197,10 @@ impl<'a> Judge<'a> {
         }
         let calls = self.calls.remove(&n.id).unwrap_or_default();
         let root = !a.valid();
-        if root {
+        if self.case.no_sampler {
+            // cannot happen through emit (no sampler is installed); a non-empty log would be a harness error
+            vassert!(cx, calls.is_empty(), "sampler-log-not-empty-without-sampler", "node {}: {} sampler call(s) logged although no sampler is installed", n.id, calls.len());
+        } else if root {
             vassert!(cx, !calls.is_empty(), "sampler-not-called-for-root", "node {} starts with no valid active traceparent ({:?}) but the sampler was not called", n.id, a.tp.map(|t| t.text()));
             vassert!(cx, calls.len() <= 1, "sampler-called-more-than-once", "node {}: {} sampler calls for one root span", n.id, calls.len());
         } else if !calls.is_empty() {
@@ -210,8 +214,14 @@ impl<'a> Judge<'a> {
 
         // the decision that governs this span
         let sampled = if root {
-            let Some(&(k, _, answer)) = calls.first() else { return Ok(lost) };
-            debug_assert_eq!(answer, self.case.decision(k));
+            // without a sampler every locally started trace is sampled (rustdoc of `TraceparentFilter::new`)
+            let k = if self.case.no_sampler {
+                0
+            } else {
+                let Some(&(k, _, answer)) = calls.first() else { return Ok(lost) };
+                debug_assert_eq!(answer, self.case.decision(k));
+                k
+            };
             let gate = match (self.case.in_sampled, a.tp) {
                 (None, _) => Some(true),
                 // the start of a new trace is itself "outside any trace": the second filter answers its flag
@@ -238,6 +248,9 @@ impl<'a> Judge<'a> {
             }
             sampled
         } else {
+            if !a.sampled() {
+                self.unsampled_nonroot_spans += 1;
+            }
             a.sampled()
         };
 
@@ -270,7 +283,6 @@ impl<'a> Judge<'a> {
             return Ok(lost);
         };
         if root {
-            let (_, arg, _) = calls[0];
             match a.tp {
                 Some(h) if h.trace.is_some() || h.span.is_some() => {
                     // half-valid header: whether its one id is reused is left open
@@ -278,13 +290,15 @@ impl<'a> Judge<'a> {
                 }
                 _ => {
                     vassert!(cx, parent.is_none(), "root-span-has-parent", "node {} starts a new trace but has span_parent {parent:x?}", n.id);
-                    vassert!(
+                    if let Some(&(_, arg, _)) = calls.first() {
+                        vassert!(
                         cx,
                         arg == Sc { trace: Some(trace), parent: None, span: Some(span) },
                         "sampler-argument-differs-from-root-span",
                         "node {}: the sampler saw {arg:x?}, the root span is trace {trace:032x} span {span:016x}",
                         n.id
                     );
+                    }
                 }
             }
         } else {
@@ -501,6 +515,7 @@ pub fn judge(case: &Case, prog: &Prog, recs: &[Rec], log: &[L], cx: &mut Cx) -> 
         downstream_spans: 0,
         continued_spans: 0,
         frame_current_hop_with_spans: false,
+        unsampled_nonroot_spans: 0,
     };
 
     for r in recs {
@@ -594,6 +609,10 @@ pub fn judge(case: &Case, prog: &Prog, recs: &[Rec], log: &[L], cx: &mut Cx) -> 
     cx.class_if(!j.hop_entry.is_empty(), "thread-hop-carried");
     cx.class_if(j.frame_current_hop_with_spans, "frame-current-hop-with-spans");
     cx.class_if(migrated_polls > 0, "async-join-polls-migrate-threads");
+    cx.class_if(case.no_sampler, "no-sampler");
+    // TraceparentFilter::new() alone, a valid unsampled incoming header, spans that inherit its flag
+    cx.class_if(case.no_sampler && case.in_sampled.is_none() && j.incoming_unsampled && j.unsampled_nonroot_spans > 0, "no-sampler-unsampled-incoming-with-spans");
+    cx.class_if(case.no_sampler && case.in_sampled.is_none() && j.unsampled_nonroot_spans >= 2, "no-sampler-unsampled-incoming-nested-spans");
     cx.class_if(case.in_sampled.is_some(), "with-sampled-trace-filter");
     cx.class_if(case.in_sampled == Some(false), "sampled-trace-filter(false)");
     cx.class_if(prog.nodes >= 8, "nodes>=8");
